@@ -12,10 +12,13 @@ for d in sorted(glob.glob(os.path.join(V, 'seeded', 'C*-*')), key=lambda p: (p.s
     caught = f'`{sig}`' if c.get('exit') == 1 else 'MISSED'
     if m.get('obsolete'):
         caught = 'n/a - neutralised by a later repair of the library (see meta.json)'
+    if m.get('not_covered'):
+        caught = 'NOT COVERED (outside the domain of the property as quantified, see meta.json)'
     if chk != m['property']:
         caught += f' (by {chk})'
     fr = m.get('first_run', '')
-    first = 'caught' if fr.startswith('caught') else 'missed, then caught' if fr.startswith('MISSED') or fr.startswith('missed') else fr[:40]
+    first = 'caught' if fr.startswith('caught') else 'missed' if m.get('not_covered') else \
+        'missed, then caught' if fr.startswith('MISSED') or fr.startswith('missed') else fr[:40]
     rows.append(f"| {name} | {m.get('round', '')} | {m.get('needs', '').replace('|', '/')} | {caught} | {first} |")
 head = ['| Seeded change | Round | Needs, in order to manifest | Caught by (signature of the first violation, quick tier seed 1) | First run |',
         '|---|---|---|---|---|']
